@@ -18,6 +18,8 @@ ITER_PARENTS = ('map', 'filterLazy', 'batch', 'unbatch', 'concat')
 def obs(ds, idx):
     r = {'iter': run_stream(lambda: ds), 'len': outcome(lambda: len(ds)), 'items': run_stream(lambda: ds.items())}
     r['gets'] = [outcome(lambda: ds[i]) for i in idx]
+    # what stages stacked on top ask before they accept a dataset
+    r['flags'] = [outcome(lambda: bool(ds.indexable), lambda b: b), outcome(lambda: bool(ds.ordered), lambda b: b)]
     r['iter2'] = run_stream(lambda: ds)
     return r
 
@@ -97,7 +99,7 @@ def one_case(rng, g, counting):
             fails.append(('profiling_refuses', {'pipeline': p, 'err': repr(e)}))
             return None, fails, p
         wrapped = obs(prof, idx)
-        for f in ('iter', 'len', 'gets', 'items', 'iter2'):
+        for f in ('iter', 'len', 'gets', 'items', 'iter2', 'flags'):
             if plain[f] != wrapped[f]:
                 fails.append(('not_transparent', {'pipeline': p, 'field': f, 'plain': plain[f], 'profiled': wrapped[f]}))
                 break
